@@ -87,6 +87,9 @@ func (prop) Shrink(in json.RawMessage) []json.RawMessage {
 		}
 	}
 	switch inp.Kind {
+	case "src":
+		shrinkSrc(inp, add)
+		return out
 	case "deps":
 		d := inp.Deps
 		if d == nil {
